@@ -3,6 +3,8 @@ package props
 import (
 	"bytes"
 	"fmt"
+	"strings"
+	"sync"
 	"testing"
 
 	"filippo.io/age"
@@ -464,6 +466,81 @@ func c06CheckMisuse(c c06Misuse, st *stats.Run) error {
 	return nil
 }
 
+// --- histories under concurrency: the same recipient values used by several
+// goroutines at once still draw one fresh secret per stanza ---
+
+type c06Conc struct {
+	Goroutines int          `json:"goroutines"`
+	PerG       int          `json:"perG"`
+	Recs       []hx.RecSpec `json:"recs"`
+}
+
+func c06CheckConcurrent(c c06Conc, st *stats.Run) error {
+	p := hx.ThePool()
+	recs := c06BuildRecs(p, c.Recs, true)
+	st.Case(true, stats.HashJSON(c), "concurrent-history", fmt.Sprintf("concurrent:G=%d", c.Goroutines))
+	st.Sample("concurrent-history", c)
+	type res struct {
+		file []byte
+		err  error
+	}
+	out := make(chan res, c.Goroutines*c.PerG)
+	var wg sync.WaitGroup
+	start := make(chan struct{})
+	for g := 0; g < c.Goroutines; g++ {
+		wg.Add(1)
+		go func() {
+			defer wg.Done()
+			<-start
+			for i := 0; i < c.PerG; i++ {
+				f, err := encryptLib(recs, []byte("x"), nil, false)
+				out <- res{f, err}
+			}
+		}()
+	}
+	close(start)
+	wg.Wait()
+	close(out)
+	zeroShare := refage.B64(refage.X25519Public(make([]byte, 32)))
+	seen := map[string]bool{}
+	n := 0
+	for r := range out {
+		if r.err != nil {
+			return pbt.Failf("C06/encrypt-failed", "concurrent Encrypt failed: %v", r.err)
+		}
+		h, rest, perr := refage.ParseHeader(r.file)
+		if perr != nil || len(rest) < 16 {
+			return pbt.Failf("C06/unparseable", "output does not parse")
+		}
+		vals := []string{"nonce:" + string(rest[:16]), "mac:" + string(h.MAC)}
+		for _, stz := range h.Stanzas {
+			switch stz.Type {
+			case "X25519":
+				vals = append(vals, "share:"+stz.Args[0])
+				if stz.Args[0] == zeroShare {
+					return pbt.Failf("C06/value-reused", "under concurrent use of one recipient value a stanza was wrapped with the all-zero ephemeral scalar (share %s)", zeroShare)
+				}
+			case "ssh-ed25519":
+				vals = append(vals, "share:"+stz.Args[1])
+				if stz.Args[1] == zeroShare {
+					return pbt.Failf("C06/value-reused", "all-zero ephemeral scalar used under concurrency")
+				}
+			case "scrypt":
+				vals = append(vals, "salt:"+stz.Args[0])
+			}
+			vals = append(vals, "body:"+string(stz.Body))
+		}
+		for _, v := range vals {
+			if seen[v] {
+				return pbt.Failf("C06/value-reused", "a %s value was used twice among %d files produced concurrently through the same recipient values", strings.SplitN(v, ":", 2)[0], c.Goroutines*c.PerG)
+			}
+			seen[v] = true
+		}
+		n++
+	}
+	return nil
+}
+
 func TestC06(t *testing.T) {
 	s := pbt.Start(t, "C06")
 	defer s.Finish()
@@ -505,6 +582,13 @@ func TestC06(t *testing.T) {
 	// the CLI's autogenerated passphrase words (cmd/age/wordlist.go), in-package
 	overlayCheck(s, "C06", "cli-random-word", "TestVerifOverlayC06", s.N(20000, 50000))
 
+	pbt.Each(s, "concurrent-history", func(yield func(c06Conc)) {
+		for _, recs := range [][]hx.RecSpec{{{Kind: "x25519", Idx: 0}}, {{Kind: "ed25519", Idx: 0}, {Kind: "x25519", Idx: 1}}, {{Kind: "scrypt", Pass: "pw", WF: 1}}, {{Kind: "rsa", Idx: 0}, {Kind: "rsa", Idx: 0}}} {
+			for rep := 0; rep < s.N(3, 10); rep++ {
+				yield(c06Conc{Goroutines: 8, PerG: 400 / len(recs), Recs: recs})
+			}
+		}
+	}, func(c c06Conc) error { return c06CheckConcurrent(c, s.St) })
 	randFault := func(c c06RandFault) error { return c06CheckRandFault(c, s.St) }
 	pbt.Regress(s, "rand-fault", randFault)
 	pbt.Each(s, "rand-fault", func(yield func(c06RandFault)) {
